@@ -101,3 +101,34 @@ Proof.
   destruct (unmarshal_oid body) as [[o rest]|]; [|discriminate].
   destruct (unmarshal_neg_token_resp rest); discriminate.
 Qed.
+
+From Mant Require Import Model.SpnegoAuth.
+
+Lemma create_neg_token_init_total tok : create_neg_token_init tok <> Panic.
+Proof.
+  unfold create_neg_token_init. destruct (marshal_neg_token_init tok); [|discriminate].
+  destruct (marshal_oid c08_spnego_oid); discriminate.
+Qed.
+
+Lemma create_authenticate_total flags lm nt user domain ws : create_authenticate flags lm nt user domain ws <> Panic.
+Proof.
+  unfold create_authenticate. destruct (authenticate_names flags user domain ws) as [[db ub] wb].
+  match goal with |- (if ?c then _ else _) <> _ => destruct c end; discriminate.
+Qed.
+
+Theorem process_challenge_token_total lm_of nt_of tok user domain ws :
+  process_challenge_token lm_of nt_of tok user domain ws <> Panic.
+Proof.
+  unfold process_challenge_token.
+  pose proof (parse_neg_token_resp_total tok) as H1.
+  destruct (parse_neg_token_resp tok) as [resp| |]; [|discriminate|congruence]. cbn [bind].
+  destruct (ntr_state resp =? 2)%Z; [discriminate|].
+  pose proof (extract_ntlm_token_total tok) as H2.
+  destruct (extract_ntlm_token tok) as [inner| |]; [|discriminate|congruence]. cbn [bind].
+  pose proof (parse_challenge_total inner) as H3.
+  destruct (parse_challenge inner) as [ch| |]; [|discriminate|congruence]. cbn [bind].
+  pose proof (create_authenticate_total (ch_flags ch) (lm_of ch) (nt_of ch) user domain ws) as H4.
+  destruct (create_authenticate (ch_flags ch) (lm_of ch) (nt_of ch) user domain ws) as [auth| |];
+    [|discriminate|congruence]. cbn [bind].
+  apply create_neg_token_init_total.
+Qed.
